@@ -10,8 +10,32 @@
 
 #include "PyImathFixedArray.h"
 #include "PyImathAutovectorize.h"
+#include <ImathVec.h>
+#include <stdexcept>
+#include <type_traits>
 
 namespace PyImath {
+
+//
+// An integer division or remainder by zero raises SIGFPE and takes the
+// interpreter down; like the scalar bindings, the array operators throw
+// "Division by zero" instead.  (No-ops for floating-point divisors.)
+//
+template <class T>
+inline void checkDivisorImpl (const T &b, std::true_type)
+{
+    if (b == T(0)) throw std::domain_error ("Division by zero");
+}
+template <class T>
+inline void checkDivisorImpl (const T &, std::false_type) {}
+template <class T>
+inline void checkDivisor (const T &b) { checkDivisorImpl (b, std::is_integral<T>()); }
+template <class T>
+inline void checkDivisor (const IMATH_NAMESPACE::Vec2<T> &b) { checkDivisor (b.x); checkDivisor (b.y); }
+template <class T>
+inline void checkDivisor (const IMATH_NAMESPACE::Vec3<T> &b) { checkDivisor (b.x); checkDivisor (b.y); checkDivisor (b.z); }
+template <class T>
+inline void checkDivisor (const IMATH_NAMESPACE::Vec4<T> &b) { checkDivisor (b.x); checkDivisor (b.y); checkDivisor (b.z); checkDivisor (b.w); }
 
 template <class T1, class T2=T1, class Ret=T1>
 struct op_add {
@@ -35,12 +59,12 @@ struct op_mul {
 
 template <class T1, class T2=T1, class Ret=T1>
 struct op_div {
-    static inline Ret apply(const T1 &a, const T2 &b) { return a/b; }
+    static inline Ret apply(const T1 &a, const T2 &b) { checkDivisor (b); return a/b; }
 };
 
 template <class T1, class T2=T1, class Ret=T1>
 struct op_mod {
-    static inline Ret apply(const T1 &a, const T2 &b) { return a%b; }
+    static inline Ret apply(const T1 &a, const T2 &b) { checkDivisor (b); return a%b; }
 };
 
 template <class T1, class T2=T1, class Ret=T1>
@@ -110,12 +134,12 @@ struct op_imul {
 
 template <class T1, class T2=T1>
 struct op_idiv {
-    static inline void apply(T1 &a, const T2 &b) { a /= b; }
+    static inline void apply(T1 &a, const T2 &b) { checkDivisor (b); a /= b; }
 };
 
 template <class T1, class T2=T1>
 struct op_imod {
-    static inline void apply(T1 &a, const T2 &b) { a %= b; }
+    static inline void apply(T1 &a, const T2 &b) { checkDivisor (b); a %= b; }
 };
 
 template <class T1, class T2=T1>
